@@ -113,6 +113,9 @@ def handlers : List (String × Handler) := [
       ("get_evidence_series", Json.arr ((getEvidenceSeries d false).map (fun k => Json.arr #[Json.str k.1, Json.str k.2])).toArray),
       ("verification", Json.str (if d.verifiedFlag then "VERIFIED" else "UNVERIFIED")),
       ("content_ids", natsToJson ((subtree d.content).map Item.id))]) (buildSR a))),
+  ("parseRoot", fun j => do
+    let present ← (← getArr j "present").toList.mapM (·.getStr?)
+    pure (exceptToJson (fun (l : List String) => Json.arr (l.map Json.str).toArray) (parseRoot (writeRoot present)))),
   ("buildKO", fun j => do
     let refs ← (← getArr j "refs").toList.mapM parseRef
     let r := buildKO refs (← getBool j "has_description") (← parseEvdList j "evidence")
